@@ -751,7 +751,7 @@ def explore(run):
             shards.append(("prop", okind, attr, std, alias, values))
             if run.thorough() or alias:
                 shards.append(("prop", okind, attr, std, alias, values2))
-            if (okind, attr) in (("SMSimfile", "stops"), ("SSCSimfile", "bpms"), ("SSCChart", "credit"), ("SSCChart", "notes")) or (run.thorough() and alias):
+            if (okind, attr) in (("SMSimfile", "stops"), ("SSCSimfile", "bpms"), ("SSCChart", "credit")) or (run.thorough() and alias):
                 shards.append(("prop", okind, attr, std, alias, values3 if okind == "SSCChart" else (values3[0], X.comma_list(90), "")))
             # transition tour on one live object: every aliased property, and (quick) one plain property per class
             if alias or run.thorough() or attr in ("title", "stepstype", "credit"):
